@@ -139,6 +139,41 @@ def spec(tier, seed):
           bounds="all operator pairs with rank(l) > rank(r), literal leaves",
           functions=["rusty_parser::expr::types::ExpressionPosTrait::flip_binary", "rusty_parser::expr::types::ExpressionPosTrait::binary_expr"])
 
+    # literal folding directly after a unary minus: exact value, narrowest type that holds it
+    b.add(ty, "vk_c10_unary_minus_integer_literal", """
+        let n: i32 = kani::any();
+        kani::assume(n >= -32768 && n <= 32767);         // what an INTEGER literal (decimal, &H or &O) can hold
+        let r = Expression::unary_minus(Expression::IntegerLiteral(n).at_pos(Position::new(1, 1)));
+        match &r {
+            Expression::IntegerLiteral(m) => assert!(*m == -n && *m >= -32768 && *m <= 32767),
+            Expression::LongLiteral(m) => assert!(*m == -(n as i64) && (*m < -32768 || *m > 32767)),
+            _ => assert!(false),
+        }
+        std::mem::forget(r);
+        """, unwind=2, exhaustive=True, cost=20, bounds="every INTEGER literal value", functions=["rusty_parser::Expression::unary_minus"])
+    b.add(ty, "vk_c10_unary_minus_long_literal", """
+        let n: i64 = kani::any();
+        kani::assume(n >= -2147483648 && n <= 2147483647);
+        let r = Expression::unary_minus(Expression::LongLiteral(n).at_pos(Position::new(1, 1)));
+        match &r {
+            Expression::LongLiteral(m) => assert!(*m == -n && *m >= -2147483648 && *m <= 2147483647),
+            Expression::DoubleLiteral(m) => assert!(*m == -(n as f64) && n == -2147483648),
+            _ => assert!(false),
+        }
+        std::mem::forget(r);
+        """, unwind=2, exhaustive=True, cost=20, bounds="every LONG literal value", functions=["rusty_parser::Expression::unary_minus"])
+    b.add(ty, "vk_c10_unary_minus_float_literal", """
+        let x: f32 = kani::any();
+        let y: f64 = kani::any();
+        kani::assume(x.is_finite() && y.is_finite());
+        let r = Expression::unary_minus(Expression::SingleLiteral(x).at_pos(Position::new(1, 1)));
+        match &r { Expression::SingleLiteral(m) => assert!(*m == -x), _ => assert!(false) }
+        std::mem::forget(r);
+        let r = Expression::unary_minus(Expression::DoubleLiteral(y).at_pos(Position::new(1, 1)));
+        match &r { Expression::DoubleLiteral(m) => assert!(*m == -y), _ => assert!(false) }
+        std::mem::forget(r);
+        """, unwind=2, exhaustive=True, cost=20, bounds="every finite SINGLE and DOUBLE literal value", functions=["rusty_parser::Expression::unary_minus"])
+
     lit = b.file("rusty_parser/src/expr/integer_or_long_literal.rs", "rusty_parser", "expr::integer_or_long_literal")
     b.add(lit, "vk_c10_digit_values", """
         let c: u8 = kani::any();
